@@ -99,18 +99,19 @@ CLAIMED = {
          "the consensus passes only the dereferences are modelled; Go 1.23 ecdsa/big/hex/utf8 and codec v1.1.7 quoteStr behaviours transliterated",
          "Coq theorems + refutation witnesses + helper/handler-level correspondence + implementation oracle (panic/hang/wedge/blocks) + TCP exploration"),
  "C11": ("Proved in Coq for every node history (insertion attempts valid or not, ProcessSigPool at any moment, any genesis set) and EVERY crash point of its "
-         "write log (also between the writes of one operation): Bootstrap succeeds; the recovered event table (with the recomputed rounds, lamport "
-         "timestamps, round-received, coordinates), per-creator indexes and KnownEvents are exactly those of the node when the operations that had "
-         "started completed, and exactly the events whose record is in the crashed database; head/seq are the own written event of greatest index; on "
-         "any continuation the recovered node equals the never-crashed node in every component but the block-signature bookkeeping and keeps the "
-         "admission invariant. Re-delivery of identical blocks is proved under the condition that Bootstrap's ProcessSigPool never takes a block from "
-         "the database (computed by the model for every checked recovery), for fewer than 100 events, and unconditionally for the proposed patch; "
-         "the unconditional statement is REFUTED on the faithful model and on the real code (open finding). Tied to the code by recoveries from "
-         "snapshots of a real Badger directory at store-write granularity inside gossip histories, real kills with continuation, restart twice, clean "
-         "shutdown, real SIGKILLs, each compared with the durable pre-crash observations and with the extracted model on every observable",
+         "write log (also between the writes of one operation): Bootstrap succeeds; the blocks re-delivered to the reset application, and the last block "
+         "index, are exactly those of the node when the operations that had started completed, so every block delivered before the crash reappears "
+         "identically at the same position, and no block of the previous life is ever read from the database (C11_redelivers, unconditional since fix "
+         "d90db55); the recovered event table (with the recomputed rounds, lamport timestamps, round-received, coordinates), per-creator indexes and "
+         "KnownEvents are exactly the written ones; head/seq are the own written event of greatest index; on any continuation the recovered node keeps "
+         "the admission and block-store invariants, delivers what the never-crashed node delivers and equals it in every component but collected block "
+         "signatures / anchor / pending signatures. Regression witness proved for the ProcessSigPool of before d90db55 (re-delivered blocks renumbered). "
+         "Tied to the code by recoveries from snapshots of a real Badger directory at store-write granularity inside gossip histories, real kills with "
+         "continuation, restart twice, clean shutdown, real SIGKILLs, the directed early-signature regression scenario staged on every run, each "
+         "compared with the durable pre-crash observations and with the extracted model on every observable",
          "11 theorems, no axioms; assumed: Badger per-transaction atomicity and commit-order durability, deterministic reset application, cache larger "
          "than the history, node never fast-forwarded; premise: hash ordinals identify events",
-         "Coq: non-interference of the block bookkeeping (HgSim.v) + log/prefix invariant + simulation of the batch loop; refutation witness by "
+         "Coq: non-interference of the block bookkeeping (HgSim.v) + log/prefix invariant + simulation of the batch loop; regression witness by "
          "vm_compute; crash-point correspondence harness + oracle"),
  "C16": ("Store model (LRU, RollingIndex with roll, InmemStore, BadgerStore as cache+DB) proved to refine a plain map for all operation sequences and all cache "
          "sizes under the admission discipline, also across reopen; cache coherence unconditionally; listings exact; the deviations of the real store from a "
